@@ -281,7 +281,7 @@ var Types = []Entry{
 	e(Bag{}, "classes"),
 	top([]int32{}, "slice"), top([]string{}, "slice"), top([]Inner{}, "slice"), top([]*Inner{}, "slice"), top([]interface{}{}, "slice", "iface"),
 	top([]float64{}, "slice"), top([]int64{}, "slice"), top(NamedList{}, "slice", "custom"),
-	top(map[string]string{}, "map"), top(map[string]int32{}, "map"), top(map[interface{}]interface{}{}, "map", "iface"), top(NamedMap{}, "map", "custom"),
+	top(map[string]string{}, "map", "top-unnamed-map"), top(map[string]int32{}, "map", "top-unnamed-map"), top(map[interface{}]interface{}{}, "map", "iface"), top(NamedMap{}, "map", "custom"),
 	top(int32(0), "scalar"), top(int64(0), "scalar"), top(float64(0), "scalar"), top("", "scalar"), top(true, "scalar"),
 	top([]byte{}, "scalar"), top(time.Time{}, "scalar"), top(int(0), "scalar"), top(uint16(0), "scalar"), top(float32(0), "scalar"),
 }
